@@ -53,7 +53,7 @@ theorem truncate_minimal (pn la : Nat) :
     | (exfalso; omega)
 
 /-- spelled out: the chosen size satisfies the §17.1 MUST and no shorter size (≥ 1 byte) does -/
-theorem truncate_minimal' (pn la : Nat) (t : Truncated) (h : truncate pn la = some t) :
+theorem truncate_minimal_spelled (pn la : Nat) (t : Truncated) (h : truncate pn la = some t) :
     Rfc.PacketNumber.sizeOk (bytesize t.len) pn la ∧
       ∀ n, 1 ≤ n → n < bytesize t.len → ¬ Rfc.PacketNumber.sizeOk n pn la := by
   unfold Rfc.PacketNumber.sizeOk
